@@ -1096,3 +1096,51 @@ Lemma source_constants :
   DEFAULT_BUFSIZE = G_DEFAULT_BUFSIZE /\ LF = G_LF /\
   forallb set_mode_row_ok G_set_mode_table = true /\ (100 < length G_set_mode_table)%nat.
 Proof. split; [reflexivity|]. split; [reflexivity|]. split; [vm_compute; reflexivity|vm_compute; lia]. Qed.
+
+(* ---- timeouts: nothing is lost when _read raises between two chunks of one read(n) ---- *)
+Lemma take_nil_drop k l : take k l = [] -> drop k l = l.
+Proof. intros H. rewrite <- (take_drop k l) at 2. now rewrite H. Qed.
+
+Lemma fill_loop_ev_pres fuel : forall size (f f' : ebf),
+  fill_loop e_sread fuel size f = Some f' -> elogical f' = elogical f.
+Proof.
+  induction fuel as [|k IH]; intros size f f' H; cbn [fill_loop] in H;
+    (destruct (size <=? zlen (rbuf f)); [injection H as <-; reflexivity|]); [discriminate|].
+  unfold e_sread at 1 in H.
+  destruct (efaults (strm f)) as [|[|] r] eqn:Ef.
+  - unfold c_sread at 1 in H.
+    match type of H with (if is_nil ?d then _ else _) = _ => destruct (is_nil d) eqn:En end.
+    + injection H as <-. apply is_nil_true in En. unfold elogical. cbn.
+      f_equal. apply take_nil_drop. exact En.
+    + apply IH in H. rewrite H. unfold elogical. cbn. rewrite <- app_assoc, take_drop. reflexivity.
+  - cbn in H. injection H as <-. reflexivity.
+  - unfold c_sread at 1 in H.
+    match type of H with (if is_nil ?d then _ else _) = _ => destruct (is_nil d) eqn:En end.
+    + injection H as <-. apply is_nil_true in En. unfold elogical. cbn.
+      f_equal. apply take_nil_drop. exact En.
+    + apply IH in H. rewrite H. unfold elogical. cbn. rewrite <- app_assoc, take_drop. reflexivity.
+Qed.
+
+Lemma read_ev_pres fuel (f : ebf) n r f' :
+  bf_read_ev fuel f n = (r, f') -> elogical f = ok_bytes r ++ elogical f'.
+Proof.
+  unfold bf_read_ev. destruct (closed f); [intros H; injection H as <- <-; reflexivity|].
+  destruct (fl_read f); cbn [negb]; [|intros H; injection H as <- <-; reflexivity].
+  destruct (n <? 0); [intros H; injection H as <- <-; reflexivity|].
+  destruct (n <=? zlen (rbuf f)).
+  - intros H; injection H as <- <-. unfold elogical. cbn. now rewrite app_assoc, take_drop.
+  - destruct (fill_loop e_sread fuel n f) as [f1|] eqn:E; [|intros H; injection H as <- <-; reflexivity].
+    apply fill_loop_ev_pres in E. destruct (efault (strm f1)); intros H; injection H as <- <-.
+    + symmetry. exact E.
+    + rewrite <- E. unfold elogical. cbn. now rewrite app_assoc, take_drop.
+Qed.
+
+Lemma erun_pres fuel : forall ns (f : ebf) rs f',
+  erun fuel f ns = (rs, f') -> elogical f = concat (map ok_bytes rs) ++ elogical f'.
+Proof.
+  induction ns as [|n ns IH]; intros f rs f' H; cbn [erun] in H.
+  - injection H as <- <-. reflexivity.
+  - destruct (bf_read_ev fuel f n) as [x f1] eqn:E1. destruct (erun fuel f1 ns) as [xs f2] eqn:E2.
+    injection H as <- <-. cbn [map concat]. rewrite <- app_assoc, <- (IH f1 xs f2 E2).
+    exact (read_ev_pres _ _ _ _ _ E1).
+Qed.
